@@ -155,6 +155,51 @@ class UnitBuild:
         item = self.src(rel).find_fn(name, impl)
         self.emitted.append(Emitted(name, "stub", rel, item.line, 0, 0, contract=note, sha256=_sha(item.text), impl=impl))
 
+    def pin_rest_of_file(self, rel: str, note: str = "in the file the property is anchored in, not under contract; pinned by hash"):
+        """FRAME of a unit: every function of `rel` (outside `#[cfg(test)]` modules) that this unit neither verifies nor already
+        assumes is pinned by SHA-256.  The claim is about the functions under contract *in the context of the rest of the file as it
+        was*; a change of any other function makes the run undecided instead of passing without having looked at it.  (A function
+        that another unit of the property verifies is exempted by the driver: same file and line.)"""
+        src = self.src(rel)
+        T = src.toks
+        # ranges of #[cfg(test)] modules
+        skip = []
+        for i, t in enumerate(T):
+            if t.kind == "ident" and t.text == "mod" and i + 2 < len(T) and T[i + 2].text == "{":
+                pre = src.src[max(0, t.start - 80):t.start]
+                if re.search(r"#\[cfg\(test\)\]\s*(pub\s+)?$", pre):
+                    skip.append((i, match_close(T, i + 2)))
+        blocks = src.impl_blocks()
+        have = {(e.file, e.name.split("::")[-1], e.line) for e in self.emitted if e.file == rel}
+        have_names = {(e.name.split("::")[-1].split("#")[0].split("__")[0]) for e in self.emitted if e.file == rel}
+        seen = {}
+        i = 0
+        while i < len(T):
+            t = T[i]
+            if any(a <= i <= b for a, b in skip):
+                i += 1
+                continue
+            if t.kind == "ident" and t.text == "fn" and i + 1 < len(T) and T[i + 1].kind == "ident":
+                name = T[i + 1].text
+                _, bo, bc = src._fn_at(i)
+                if bo < 0:
+                    i += 1
+                    continue
+                line = src.line_of(t.start)
+                hdr = None
+                for h, o, c in blocks:
+                    if o < i < c:
+                        hdr = h
+                text = src.src[t.start:T[bc].end]
+                if name not in have_names:
+                    n = seen.get(name, 0)
+                    seen[name] = n + 1
+                    key = name if n == 0 else f"{name}#{n + 1}"
+                    self.emitted.append(Emitted(key, "stub", rel, line, 0, 0, contract=note, sha256=_sha(text), impl=hdr))
+                i = bc + 1   # nested fns / closures belong to the enclosing function's text
+                continue
+            i += 1
+
     def emit_split(self, rel, key, item, sig, spec, body, counts, cfg, out_impl):
         """Case split on the enum variant matched by one big `match` of the function (DESIGN §2, engine VA):
         one obligation per variant V with the extra precondition `<on> is V`, in which every arm for another variant is
